@@ -29,13 +29,15 @@ use crate::engine::runner::Violation;
 use crate::engine::runner::pick;
 
 const BOOKMARKS: &[&str] = &["b0", "b1"];
+// Never the root commit: its all-zero id is not a git object (a bookmark there is "pushed" as a
+// deletion and leaves a dangling refs/remotes entry that breaks the emulated fetch).
 const LOCAL_REVS: &[&str] = &[
-    "@-",
-    "@--",
-    "latest(remote_bookmarks())",
-    "latest(heads(all()) ~ @)",
-    "latest(b0@origin | b1@origin)",
-    "latest(mine() ~ @ ~ empty())",
+    "@- ~ root()",
+    "@-- ~ root()",
+    "latest(remote_bookmarks() ~ root())",
+    "latest(heads(all()) ~ @ ~ root())",
+    "latest((b0@origin | b1@origin) ~ root())",
+    "latest(mine() ~ @ ~ empty() ~ root())",
 ];
 
 #[derive(Debug, Clone, Copy, Serialize, Deserialize, PartialEq, Eq)]
